@@ -29,14 +29,16 @@ def _cfg_sock(tier):
                 out.append({'n': n, 'queries': q, 'calm': 1})      # the second wind given is a zero-speed (calm) segment
                 # two of the winds given are the SAME wind (equal speed and direction) over different stretches; with n = 3 in both
                 # arrangements (the equal pair adjacent in the input or not - after sorting they may or may not be neighbours)
-                out.append({'n': n, 'queries': q, 'same': (0, 1)})
-                if n >= 3:
+                if n <= 3:          # (n = 4 forks 4! input orders: these variants would double the thorough tier's longest units)
+                    out.append({'n': n, 'queries': q, 'same': (0, 1)})
+                if n == 3:
                     out.append({'n': n, 'queries': q, 'same': (0, 2)})
                 # until-distances that carry DIFFERENT unit labels: assigned to the public field after construction, or each wind built under another preferred unit
                 out.append({'n': n, 'queries': q, 'labels': ('assigned', ['Meter', 'Yard', 'Foot', 'Kilometer'][:n])})
                 out.append({'n': n, 'queries': q, 'labels': ('preferred', ['Yard', 'Meter', 'Inch', 'Foot'][:n])})
                 # until-distances given as BARE numbers (read in the preferred unit; 0 included: a segment of no extent blows nowhere)
-                out.append({'n': n, 'queries': q, 'labels': ('bare', ['Foot'] * n)})
+                if n <= 3:
+                    out.append({'n': n, 'queries': q, 'labels': ('bare', ['Foot'] * n)})
     return out
 
 
